@@ -332,6 +332,11 @@ func init() {
 		return TupleV{PtrV{obj: o}, IfaceV{}}
 	}
 	cutExpr := func(e *Exec, fn *ssa.Function, a []Value, c *Frame) Value {
+		if e.params["exprlang_error"] == 1 && fn.Signature.Results().Len() == 2 {
+			// job option: the VM reports an evaluation error (what it does e.g. for a nil operand), so
+			// that the repo's own fallback evaluators run and can be checked
+			return TupleV{IfaceV{}, e.mkError("expr-lang evaluation error (stub)")}
+		}
 		panic(pathEnd{"cut", "expr-lang " + fn.Name() + " (general expression engine is outside the encodable code)"})
 	}
 	intrinsics["github.com/expr-lang/expr.Run"] = cutExpr
